@@ -15,13 +15,20 @@ Cs == [l \in 1..Len(Rec.cs) |-> Rec.cs[l]]
 Rows == [j \in 1..Len(Rec.rows) |-> [a \in 1..Rec.nw |-> [b \in 1..Rec.nw |-> T4(Rec.rows[j][a][b])]]]
 Fft == T3(Rec.fft)
 Dk == T3(Rec.dk)
-(* the k-points of the rows, in twelfths: kpoints_all of the FFT grid, or the explicit list *)
-Ks == IF Rec.kind = "klist" THEN [j \in 1..Len(Rec.k12) |-> T3(Rec.k12[j])] ELSE KpointsAll(Fft, Dk)
+(* the k-points of the rows, in twelfths: the explicit list, or the code's own Data_K.kpoints_all (recorded, reduced modulo 12):
+   the statement is about the values at the k-points, not about the order in which the FFT grid is listed *)
+Ks == [j \in 1..Len(Rec.k12) |-> T3(Rec.k12[j])]
+Grid == KpointsAll(Fft, Dk)
+SameOrderAsSpec == Len(Ks) = Len(Grid) /\ \A j \in 1..Len(Ks) : Ks[j] = Grid[j]
 Clauses ==
    [ model_hermitian |-> IsHermitianModel(M),
      n_rows          |-> Len(Rec.rows) = Len(Ks),
+     (* the FFT paths return the points of the FFT grid shifted by dK, each once, in any order *)
+     kpoints_are_grid |-> Rec.kind = "klist" \/ (Len(Ks) = Len(Grid) /\ {Ks[j] : j \in 1..Len(Ks)} = {Grid[j] : j \in 1..Len(Grid)}),
      equals_direct   |-> With(DerTable(M, HamTable(M), Cs), LAMBDA X : Rows = [j \in 1..Len(Ks) |-> RtoKDirect(M, X, Ks[j])]),
-     equals_fftpath  |-> Rec.kind = "klist" \/ Rows = FFTPath(M, Fft, Dk, Cs, FALSE),
+     (* binding of the modelled FFT path (placement modulo NKFFT, K-shift phase, transform, C-order reshape); only meaningful
+        while the code lists the grid in the order of the model *)
+     equals_fftpath  |-> Rec.kind = "klist" \/ ~SameOrderAsSpec \/ Rows = FFTPath(M, Fft, Dk, Cs, FALSE),
      hermitian       |-> RowsHermitian(Rows) ]
 Report == \A n \in DOMAIN Clauses : Clauses[n] \/ PrintT(<<"BAD", i, n>>)
 RecInit == i \in 1..Len(Recs)
